@@ -5,6 +5,7 @@
 package main
 
 import (
+	"bufio"
 	"bytes"
 	"math/rand"
 	"strings"
@@ -14,9 +15,11 @@ import (
 )
 
 type desc struct {
-	Op string `json:"op"` // setpath | parse | ctx
-	S  hlib.B `json:"s"`
-	G  string `json:"g,omitempty"` // generator class
+	// setpath | setstr | dpn | reuse | pool | copy | parse | reparse | ctx | requri | wire | update
+	Op   string `json:"op"`
+	S    hlib.B `json:"s"`
+	Prev hlib.B `json:"prev,omitempty"` // reuse/pool/reparse: what the same URI object held before; update: the base target
+	G    string `json:"g,omitempty"`    // generator class
 }
 
 // the alphabet of the property: tokens whose decoded forms are '/', '.', '%', and an ordinary byte
@@ -72,6 +75,31 @@ func corpus() []desc {
 	}
 	for _, s := range []string{"/a/..?/../x", "/a/.#/../x", "/a/..#?/b", "/a?b#c/..", "/a/%3f/..", "/a/%23/..", "/a/..%3f", "?", "#", "/.?", "/..#", "/a/b/..?x=1&y=/.."} {
 		c = append(c, desc{Op: "parse", S: []byte(s), G: "dict"}, desc{Op: "ctx", S: []byte(s), G: "dict"})
+	}
+	// every other way a path reaches normalizePath, on the shapes that matter
+	long1 := "/" + strings.Repeat("a/./b/../", 30) + ".."
+	long2 := strings.Repeat("/%2e%2e/x", 40) + "/."
+	long3 := "/" + strings.Repeat("seg/", 60) + strings.Repeat("../", 30) + "%2e"
+	shapes := []string{"", "/", "/a/..", "/a/.", "/a/b/../..", "/../x", "/a/%2e%2e/b", "/a%2f..%2fb", "//a///b/./c/..", "/%zz/%2/..", "/a\\..\\b/%5c..", "/%00/..", "/a/b/c/d/../../..", "/.%2e/.%2E/x/", "/a/...", long1, long2, long3}
+	for i, sh := range shapes {
+		prev := shapes[(i+7)%len(shapes)]
+		for _, op := range []string{"setstr", "dpn", "copy"} {
+			c = append(c, desc{Op: op, S: []byte(sh), G: "api"})
+		}
+		for _, op := range []string{"reuse", "pool"} {
+			c = append(c, desc{Op: op, S: []byte(sh), Prev: []byte(prev), G: "api"}, desc{Op: op, S: []byte(sh), Prev: []byte(long1), G: "api"})
+		}
+		if !hasCTL([]byte(sh)) && !strings.Contains(sh, " ") {
+			c = append(c, desc{Op: "reparse", S: []byte(sh), Prev: []byte(long3 + "?q#h"), G: "api"}, desc{Op: "requri", S: []byte(sh + "?a=/../b"), G: "api"})
+			if sh != "" {
+				c = append(c, desc{Op: "wire", S: []byte(sh), G: "api"}, desc{Op: "wire", S: []byte(sh + "?x=/./#f"), G: "api"})
+			}
+		}
+	}
+	for _, b := range []string{"/a/b/c", "/a/b/", "/", "/a", "/a/%2e%2e/b/c", "/x/y/z/"} {
+		for _, nu := range []string{"", "d", "../d", "../../d", "../../../d", "./d", ".", "..", "../", "d/../e", "%2e%2e/d", "..%2fd", "d//e", "..//d", "d/.", "d/..", "/r/../s", "/", "?q=/../x", "#f/..", "d?q=..", "../d#/..", "d/%zz/..", "...", ".a/..b"} {
+			c = append(c, desc{Op: "update", Prev: []byte(b), S: []byte(nu), G: "update"})
+		}
 	}
 	n := 0
 	for l, p := 0, 1; l <= corpusMaxLen; l, p = l+1, p*len(toks) {
@@ -142,6 +170,35 @@ func nthShape(r *rand.Rand, i, minLen int) []byte {
 func gen(r *rand.Rand, i int) desc {
 	if i%4 != 3 { // exhaustive enumeration of decoded shapes beyond the corpus: lengths 5, 6, 7, 8, ...
 		return desc{Op: "setpath", S: nthShape(r, i-i/4, corpusMaxLen+1), G: "enum"}
+	}
+	if r.Intn(5) == 0 { // the other entry points, on random words
+		w := string(word(r, moreToks, 9))
+		prev := string(word(r, moreToks, 12))
+		switch r.Intn(9) {
+		case 0:
+			return desc{Op: "setstr", S: []byte(w), G: "api"}
+		case 1:
+			return desc{Op: "dpn", S: []byte(w), G: "api"}
+		case 2:
+			return desc{Op: "reuse", S: []byte(w), Prev: []byte(prev), G: "api"}
+		case 3:
+			return desc{Op: "pool", S: []byte(w), Prev: []byte(prev), G: "api"}
+		case 4:
+			return desc{Op: "copy", S: []byte(w), G: "api"}
+		case 5, 6:
+			t := "/" + w
+			if hasCTL([]byte(t)) || strings.Contains(t, "://") || strings.Contains(t, " ") {
+				t = "/a/../b"
+			}
+			return desc{Op: []string{"wire", "requri", "reparse"}[r.Intn(3)], S: []byte(t), Prev: []byte("/" + prev + "?x#y"), G: "api"}
+		default:
+			base := "/" + string(word(r, []string{"/", ".", "a", "b", "%2e", "..", "%2f"}, 7))
+			nu := string(word(r, []string{"/", ".", "..", "a", "%2e", "%2f", "?", "#", "%zz", "%2e%2e", "./", "../"}, 7))
+			if strings.HasPrefix(nu, "//") || strings.Contains(nu, ":") {
+				nu = "../x"
+			}
+			return desc{Op: "update", Prev: []byte(base), S: []byte(nu), G: "update"}
+		}
 	}
 	switch r.Intn(10) {
 	case 0, 1: // longer words over the property's alphabet
@@ -229,6 +286,67 @@ func run(d desc) hlib.Case {
 		u.SetPathBytes(d.S)
 		got := append([]byte(nil), u.Path()...)
 		c.Coq = hlib.App("CSetPath", hlib.Hex(d.S), hlib.Hex(got))
+	case "setstr": // SetPath(string)
+		var u fasthttp.URI
+		u.SetPath(string(d.S))
+		c.Coq = hlib.App("CSetPath", hlib.Hex(d.S), hlib.Hex(u.Path()))
+	case "dpn": // DisablePathNormalizing only affects RequestURI(): Path() stays normalised
+		var u fasthttp.URI
+		u.DisablePathNormalizing = true
+		u.SetPathBytes(d.S)
+		_ = u.RequestURI()
+		c.Coq = hlib.App("CSetPath", hlib.Hex(d.S), hlib.Hex(u.Path()))
+	case "reuse": // the same URI object (and its path buffer) used twice
+		var u fasthttp.URI
+		u.SetPathBytes(d.Prev)
+		_ = u.Path()
+		u.SetPathBytes(d.S)
+		c.Coq = hlib.App("CSetPath", hlib.Hex(d.S), hlib.Hex(u.Path()))
+	case "pool": // pooled object: Acquire, use, Release, Acquire again
+		u := fasthttp.AcquireURI()
+		u.SetPathBytes(d.Prev)
+		fasthttp.ReleaseURI(u)
+		u = fasthttp.AcquireURI()
+		u.SetPathBytes(d.S)
+		got := append([]byte(nil), u.Path()...)
+		fasthttp.ReleaseURI(u)
+		c.Coq = hlib.App("CSetPath", hlib.Hex(d.S), hlib.Hex(got))
+	case "copy": // CopyTo carries the normalised path
+		var u, v fasthttp.URI
+		v.SetPath("/stale/../../path/./that/is/longer")
+		u.SetPathBytes(d.S)
+		u.CopyTo(&v)
+		c.Coq = hlib.App("CSetPath", hlib.Hex(d.S), hlib.Hex(v.Path()))
+	case "reparse": // Parse on a URI that was parsed before
+		var u fasthttp.URI
+		_ = u.Parse([]byte("other.example"), d.Prev)
+		if err := u.Parse([]byte("example.com"), d.S); err != nil {
+			panic("C26 harness: generator produced an unparsable target: " + err.Error())
+		}
+		c.Coq = hlib.App("CParse", hlib.Hex(d.S), hlib.Hex(u.Path()))
+	case "requri": // Request.SetRequestURI + Request.URI()
+		var req fasthttp.Request
+		req.Header.SetHost("example.com")
+		req.SetRequestURIBytes(d.S)
+		c.Coq = hlib.App("CParse", hlib.Hex(d.S), hlib.Hex(req.URI().Path()))
+	case "wire": // server side: the request line is read from the wire, then ctx.Path()
+		var req fasthttp.Request
+		raw := append(append([]byte("GET "), d.S...), " HTTP/1.1\r\nHost: example.com\r\n\r\n"...)
+		if err := req.Read(bufio.NewReader(bytes.NewReader(raw))); err != nil {
+			panic("C26 harness: request does not parse: " + err.Error())
+		}
+		var ctx fasthttp.RequestCtx
+		ctx.Init(&req, nil, nil)
+		c.Coq = hlib.App("CParse", hlib.Hex(d.S), hlib.Hex(ctx.Path()))
+	case "update": // URI.Update with a relative / absolute-path / query-only reference
+		var u fasthttp.URI
+		if err := u.Parse([]byte("example.com"), d.Prev); err != nil {
+			panic("C26 harness: base does not parse: " + err.Error())
+		}
+		basePath := append([]byte(nil), u.Path()...)
+		u.UpdateBytes(d.S)
+		c.Coq = hlib.App("CUpdate", hlib.Hex(basePath), hlib.Hex(d.S), hlib.Hex(u.Path()))
+		c.Sig = sig("update:"+string(basePath)+"+", d.S)
 	case "parse":
 		var u fasthttp.URI
 		if err := u.Parse([]byte("example.com"), d.S); err != nil {
